@@ -1,2 +1,4 @@
 -- Root of the `NtpVerif` library: imports every property module so `lake build` checks everything.
 import NtpVerif.Props.C13
+import NtpVerif.Props.C42
+import NtpVerif.Props.C43
